@@ -478,6 +478,9 @@ func c12Gen(rng *verifsim.RNG, idx int, tier string) *Plan {
 			p.Actions = append(p.Actions, Action{At: int64(rng.Dur(0, horizon)) + jitter(rng), Kind: "ra", If: "eth0", Src: "fe80::5:9", RA: ra})
 		}
 	}
+	if !strings.HasPrefix(p.Class, "twin") {
+		maybeReinit(rng, p, "eth0", 100*nsMs, p.Horizon, 0.2)
+	}
 	return p
 }
 
